@@ -135,7 +135,11 @@ type roundInput struct {
 }
 
 func runSynthRound(s *ref.FriSynth, in *roundInput) engine.Result {
-	return harnRunOpt(engine.Options{Face: engine.Native}, func(api frontend.API) error {
+	return runSynthRoundPol(s, in, nil)
+}
+
+func runSynthRoundPol(s *ref.FriSynth, in *roundInput, pol engine.HintPolicy) engine.Result {
+	return harnRunOpt(engine.Options{Face: engine.Native, Policy: pol}, func(api frontend.API) error {
 		chip, cd := friChipFor(api, s.Prm)
 		ch := variables.FriChallenges{FriAlpha: qeConst(in.alpha)}
 		for _, b := range in.betas {
@@ -164,6 +168,33 @@ func cloneRound(q ref.QueryRound) ref.QueryRound {
 		o.Steps = append(o.Steps, ref.QueryStep{Evals: append([]ref.E(nil), st.Evals...), Siblings: append([]fr.Element(nil), st.Siblings...)})
 	}
 	return o
+}
+
+// idxPolicy: adversarial bit decomposition of the query index: the low bits spell another
+// index and one high "bit" absorbs the difference (only possible if the decomposition's
+// outputs are not all constrained to be boolean).
+type idxPolicy struct {
+	x      *big.Int
+	target uint64
+	lde    int
+}
+
+func (p idxPolicy) NeedSite() bool { return false }
+func (p idxPolicy) Substitute(ev *engine.HintEvent) ([]*big.Int, bool) {
+	if (ev.Name != "nBits" && ev.Name != "NBits") || len(ev.Outputs) <= p.lde || ev.Inputs[0].Cmp(p.x) != 0 {
+		return nil, false
+	}
+	out := make([]*big.Int, len(ev.Outputs))
+	for i := range out {
+		out[i] = new(big.Int)
+		if i < p.lde {
+			out[i].SetUint64((p.target >> uint(i)) & 1)
+		}
+	}
+	d := new(big.Int).Sub(p.x, new(big.Int).SetUint64(p.target))
+	d.Mul(d, new(big.Int).ModInverse(pow2(uint(p.lde)), bigR))
+	out[p.lde] = d.Mod(d, bigR)
+	return out, true
 }
 
 var c13Corruptions = []string{"leaf", "eval_own_c0", "eval_own_c1", "eval_other_c0", "eval_other_c1", "sibling_initial", "sibling_step", "beta_c0", "beta_c1", "alpha_c0", "alpha_c1", "reduced_opening_c0", "reduced_opening_c1", "final_coeff_c0", "final_coeff_c1", "index_low_bit", "index_mid_bit", "index_high_bit", "cap", "commit_cap"}
@@ -452,6 +483,19 @@ func init() {
 					}
 					o.Inc("valid_rounds_accepted")
 					o.Inc(fmt.Sprintf("within_coset_pattern_%02d", idx&15))
+					// the round data of ANOTHER index presented for this challenge, with a forged bit
+					// decomposition of the challenge: the index must be bound to the challenge
+					{
+						other := (idx + 1 + uint64(r.Intn(1<<uint(lde)-1))) % (1 << uint(lde))
+						forged := *base
+						forged.q = s.Query(other)
+						res3 := runSynthRoundPol(s, &forged, idxPolicy{x: new(big.Int).SetUint64(raw), target: other, lde: lde})
+						o.Events += events(res3)
+						if res3.Verdict == engine.Accept {
+							return fw.Violate("query_index_not_bound_to_challenge", fmt.Sprintf("case %s: challenge %d (index %d) accepted the openings of index %d with a forged bit decomposition", c.ID, raw, idx, other))
+						}
+						o.Inc("forged_index_decompositions_rejected")
+					}
 					for ci, corr := range c13Corruptions {
 						if ctx.Quick && (q+ci)%3 != 0 {
 							continue
